@@ -234,6 +234,9 @@ type probeResult struct {
 
 // probeTCP presents one handshake under key k to the TCP listener at addr.
 func (ms *mainSim) probeTCP(addr string, k *Key, wire []byte) *probeResult {
+	if k.EK == nil && wire == nil {
+		return &probeResult{} // a key with an unsupported cipher cannot produce a stream
+	}
 	ms.nProbe++
 	ip, port := dialIP(addr)
 	cip := net.IPv4(198, 18, 20, byte(1+ms.nProbe%200)).To4()
@@ -278,6 +281,9 @@ func (ms *mainSim) probeTCP(addr string, k *Key, wire []byte) *probeResult {
 // probeUDP sends one datagram under key k to the UDP listener at addr and
 // reports the key id of the association it created ("" if none).
 func (ms *mainSim) probeUDP(addr string, k *Key) (authID string, delivered bool) {
+	if k.EK == nil {
+		return "", true
+	}
 	ms.nProbe++
 	ip, port := dialIP(addr)
 	cip := net.IPv4(198, 18, 21, byte(1+ms.nProbe%200)).To4()
@@ -350,6 +356,9 @@ func genCfg(G *simrt.Tape, U []*Key, prev *mCfg, maxSvc int) *mCfg {
 			sv.Listeners = append(sv.Listeners, ln)
 		}
 		nK := G.Draw(5)
+		if G.Draw(6) == 0 {
+			nK = 13 + G.Draw(12) // a long key list: the universe is small, so it repeats keys
+		}
 		for k := 0; k < nK; k++ {
 			sv.Keys = append(sv.Keys, U[G.Draw(len(U))])
 		}
